@@ -575,12 +575,6 @@ func (c *constraint) matchesCaretZeroX(version *Version) bool {
 		return false
 	}
 
-	// For prereleases of the same 0.minor.patch, accept them
-	if version.minor == constraintVersion.minor &&
-		version.patch == constraintVersion.patch {
-		return true
-	}
-
 	// For other versions, use standard >=constraint and <nextMinor logic
 	comparison := version.Compare(constraintVersion)
 	return comparison >= 0 && version.minor < constraintVersion.minor+1
@@ -596,11 +590,6 @@ func (c *constraint) matchesCaretZeroZeroX(version *Version) bool {
 	// Version must be 0.0.x and same patch version
 	if version.major != 0 || version.minor != 0 || version.patch != constraintVersion.patch {
 		return false
-	}
-
-	// For prereleases of the same 0.0.patch, accept them
-	if version.patch == constraintVersion.patch {
-		return true
 	}
 
 	// For exact patch versions
